@@ -646,24 +646,33 @@ Definition r_full_match (s : rds) (n : dname) (c t v : Z) (d : option Z) : bool 
   else if negb (name_eqb (oname s) n) || negb (oz_eqb (deleting s) d) then false
   else true.
 
-(* RRset.to_rdataset = dns.rdataset.from_rdata_list(self.ttl, list(self)) *)
-Definition r_to_rdataset (s : rds) : res rds :=
-  match items s with
+(* dns.rdataset.from_rdata_list(ttl, rdatas) / dns.rrset.from_rdata_list(name, ttl, rdatas):
+   ValueError on an empty list; r = Rdataset(rd0.rdclass, rd0.rdtype) resp. RRset(name, ...);
+   r.update_ttl(ttl); r.add(rd) for every rd *)
+Definition r_from_list (n : option dname) (t : Z) (xs : list rdata) : res rds :=
+  match xs with
   | [] => Lib eValueError
   | rd0 :: _ =>
-      let r0 := update_ttl (mkRds KRds (rcls rd0) (rtyp rd0) 0 0 [] [] None) (ttl s) in
-      match radd_all r0 (items s) with
+      let r0 := match n with
+                | Some nm => mkRds KRR (rcls rd0) (rtyp rd0) 0 0 [] nm None
+                | None => mkRds KRds (rcls rd0) (rtyp rd0) 0 0 [] [] None
+                end in
+      match radd_all (update_ttl r0 t) xs with
       | (r, Ok _) => Ok r
       | (_, Lib e) => Lib e
       | (_, Internal e) => Internal e
       end
   end.
 
+(* RRset.to_rdataset = dns.rdataset.from_rdata_list(self.ttl, list(self)) *)
+Definition r_to_rdataset (s : rds) : res rds := r_from_list None (ttl s) (items s).
+
 Inductive rop :=
 | RNew (d : nat) (c t v t0 : Z)                          (* Rdataset(c, t, v, t0) *)
 | RNewRR (d : nat) (n : dname) (c t v : Z) (del : option Z)   (* RRset(n, c, t, v, del) *)
 | RImm (d r : nat)                                       (* ImmutableRdataset(reg r) *)
 | RToRdataset (d r : nat)
+| RFromList (d : nat) (n : option dname) (t : Z) (xs : list rdata)   (* from_rdata_list *)
 | RAdd (r : nat) (x : rdata) (ottl : option Z)
 | RUpdateTtl (r : nat) (t : Z)
 | RRemove (r : nat) (x : rdata)
@@ -706,6 +715,11 @@ Definition rstep (st : list rds) (op : rop) : list rds * obs :=
           | KRds | KImm => (st, E iAttributeError)
           end
       | None => bad st end
+  | RFromList d n t xs =>
+      match r_from_list n t xs with
+      | Ok x => match assign st d x with Some st' => (st', N) | None => bad st end
+      | e => (st, obs_err e)
+      end
   | RAdd r x ottl =>
       match nth_error st r with
       | Some s => match kd s with
@@ -1067,6 +1081,11 @@ Section Decode.
         match nat_of_obs r, rec_at x with Some r, Some x => Some (RContains r x) | _, _ => None end
     | L [I 20; r; I i] => match nat_of_obs r with Some r => Some (RGet r i) | None => None end
     | L [I 21; r; I i] => match nat_of_obs r with Some r => Some (RDelItem r i) | None => None end
+    | L [I 22; d; n; I t; L xs] =>
+        match nat_of_obs d, (match n with N => Some None
+                                     | _ => match name_of_obs n with Some nm => Some (Some nm) | None => None end
+                             end), recs_at xs with
+        | Some d, Some n, Some xs => Some (RFromList d n t xs) | _, _, _ => None end
     | _ => None
     end.
 End Decode.
